@@ -15,7 +15,7 @@ THEOREMS_B = ["C06b_roundtrip_ref", "C06b_json_model_ok", "C06b_roundtrip_ref_mo
               "C06b_stack_irrelevant", "C06b_stack_only_cycles", "C06b_final_value_inline", "C06b_model_project_is_drive",
               "C06b_order_independent", "C06b_result_unique", "C06b_inline_xdenote_args", "C06b_final_value_xdenote_args", "C06b_Rep_XRep",
               "C06b_inline_xdenote", "C06b_sound_partial", "C06b_sound_partial_model", "C06b_xprint_canonical", "C06b_parse_args",
-              "C06b_sound"]
+              "C06b_sound", "C06_args_locale_old_refuted"]
 REGISTRY = {
     "level": "proof",
     "technique": "Coq proof (populate = substitution on the denotation; resolution leaves no foreign key; rejection lemmas) + differential "
@@ -404,8 +404,8 @@ def run(ctx):
         "samples": meta[:2], "traces_validated_against_impl": len(meta) - unm, "unmodelled_skipped": unm,
         "disagreements": len(dis), "spec_failures_on_impl": len(bad), "panics": len(panics), "input_distribution": hist, "audit_problems": problems,
     }, assumptions=["ranges and plurals as foreign-key targets (count arguments) are not in this fragment",
-                    "arguments containing $t are not combined with null targets in inheriting locales (the property text does not fix the locale such "
-                    "arguments are evaluated in)"])
+                    "nested references inside an argument denote in the locale the reference is written in (the reading the repaired code "
+                    "follows since 01a592b; the earlier code resolved them in the locale a null target is inherited from)"])
 
 
 def nested_arg_under_null_target(proj):
